@@ -87,6 +87,37 @@ def reply_sessions(maxlen, per_session=60, prefix="reply"):
     return out
 
 
+def builtin_sessions(per_session=120, prefix="fn"):
+    """every built-in function and every statement taking a number, with boundary arguments (0, negatives, the
+    16-bit limits, huge and tiny floats, a string where a number is expected and the reverse): none may crash"""
+    nums = ["0", "-1", "1", "0.5", "-0.5", "255", "256", "-255", "-256", "32767", "-32768", "32768", "65535", "65536", "1E38",
+            "-1E38", "1D308", "1E-38", "\"\"", "\"A\"", "\"é\"", "A", "A$"]
+    f1 = ["ABS", "ASC", "ATN", "CDBL", "CHR$", "CINT", "COS", "CSNG", "EXP", "FIX", "HEX$", "INT", "LEN", "LOG", "OCT$", "POS",
+          "RND", "SGN", "SIN", "SPC", "SQR", "STR$", "TAB", "TAN", "VAL"]
+    lines = []
+    for f in f1:
+        for x in nums:
+            lines.append("PRINT %s(%s);" % (f, x))
+    for x in nums:
+        lines += ["PRINT LEFT$(\"AB\",%s);" % x, "PRINT RIGHT$(\"AB\",%s);" % x, "PRINT MID$(\"AB\",%s);" % x,
+                  "PRINT MID$(\"AB\",1,%s);" % x, "PRINT MID$(\"AB\",%s,1);" % x, "PRINT STRING$(%s,\"A\");" % x,
+                  "PRINT STRING$(2,%s);" % x, "PRINT INSTR(%s,\"AB\",\"B\");" % x, "PRINT INSTR(\"AB\",%s);" % x,
+                  "PRINT LEFT$(%s,1);" % x, "PRINT TAB(%s);\"x\";TAB(%s);\"y\"" % (x, x), "PRINT 1,TAB(%s);2" % x,
+                  "PRINT SPC(%s);1" % x, "DIM Q(%s)" % x, "Q(%s)=1" % x, "ON %s GOTO 10,20" % x, "ON %s GOSUB 10" % x,
+                  "FOR I=1 TO 3 STEP %s:NEXT" % x, "FOR I=%s TO %s:NEXT" % (x, x), "MID$(A$,%s)=\"z\"" % x,
+                  "A$=\"ABC\":MID$(A$,1,%s)=\"z\":PRINT A$" % x, "PRINT 1^%s;2 MOD %s;3\\%s" % (x, x, x),
+                  "PRINT %s AND %s;NOT %s" % (x, x, x), "A%%=%s" % x, "A!=%s" % x, "A#=%s" % x, "A$=%s" % x,
+                  "RESTORE %s" % x, "LIST %s" % x, "DELETE %s" % x, "RUN %s" % x, "GOTO %s" % x, "RENUM %s" % x,
+                  "DEFINT %s" % x, "SWAP A,%s" % x, "ERASE %s" % x, "CLEAR %s" % x]
+    out, n = [], 0
+    for i in range(0, len(lines), per_session):
+        ops = [{"op": "line", "text": "10 REM"}, {"op": "line", "text": "20 REM"}]
+        ops += [{"op": "line", "text": t} for t in lines[i:i + per_session]]
+        out.append({"id": "%s-%d" % (prefix, n), "q": 5000, "maxexec": 40, "ops": ops, "files": {}})
+        n += 1
+    return out
+
+
 def soup_sessions(seed, n, lines):
     """random byte / token soup and damaged program lines, run with interrupts and replies"""
     r = random.Random(seed)
